@@ -36,6 +36,17 @@ mod driver {
         fn remove_node(&self, _node: &AdaptiveNodeId) {}
     }
 
+    pub fn selector_new(case: &Value) -> Value {
+        let cfg = TrustSelectionConfig {
+            trust_weight: f64::from_bits(u(case, "cfg.trust_weight")),
+            min_trust_threshold: f64::from_bits(u(case, "cfg.min_trust_threshold")),
+            exclude_untrusted: b(case, "cfg.exclude_untrusted"),
+        };
+        let sel = TrustAwarePeerSelector::new(Arc::new(TableTrust(HashMap::new())), cfg);
+        json!({"q_w": sel.config.trust_weight.to_bits(), "q_thr": sel.config.min_trust_threshold.to_bits(), "q_excl": sel.config.exclude_untrusted,
+               "s_w": sel.storage_config.trust_weight.to_bits(), "s_thr": sel.storage_config.min_trust_threshold.to_bits(), "s_excl": sel.storage_config.exclude_untrusted})
+    }
+
     pub fn select(case: &Value) -> Value {
         let m = case["__params"]["m"].as_u64().unwrap_or(1) as usize;
         let storage = case["__params"]["storage"].as_bool().unwrap_or(true);
@@ -75,5 +86,9 @@ mod driver {
 #[test]
 fn verif_replay_entry() {
     let case: serde_json::Value = serde_json::from_str(&std::env::var("VERIF_REPLAY_CASE").unwrap_or_default()).expect("case json");
+    if std::env::var("VERIF_REPLAY_HARNESS").unwrap_or_default() == "selector_new" {
+        println!("VERIF-OBS {}", driver::selector_new(&case));
+        return;
+    }
     println!("VERIF-OBS {}", driver::select(&case));
 }
